@@ -120,7 +120,10 @@ MStep(m, e, idx) ==
                               ELSE Flag(m.bad, "C01", "C01_OneResult", idx))
                         ELSE Flag(m.bad, "C06", "C06_WrongValue", idx)
                    [] OTHER -> Flag(m.bad, "C06", "C06_UnknownOutcome", idx)
-        IN [m0 EXCEPT !.pend = @ \ {c}, !.bad = b,
+            \* C05: "finishes with a value, an exception or its caller's own cancellation ... recover by recomputing"
+            b5 == IF b["C06"] # m.bad["C06"] /\ e.kind \in {"cancel", "exc", "timeout"}
+                  THEN Flag(b, "C05", "C05_NoRecovery_" \o e.exctype, idx) ELSE b
+        IN [m0 EXCEPT !.pend = @ \ {c}, !.bad = b5,
                       !.inflight = [kk \in DOMAIN @ |-> {i \in @[kk] : m.inv[i].c # c}]]
     [] e.e = "End" ->
         \* every call whose loop was not abandoned must have finished
